@@ -646,6 +646,15 @@ def canonicalise_idioms(tree: ast.AST) -> int:
             if isinstance(node.func, ast.Attribute) and node.func.attr == "transpose" and not node.args and not node.keywords:
                 n += 1
                 return ast.copy_location(ast.Attribute(value=node.func.value, attr="T", ctx=ast.Load()), node)
+            # dict() / list() / tuple() -> {} / [] / ()
+            if isinstance(node.func, ast.Name) and node.func.id in ("dict", "list", "tuple") and not node.args and not node.keywords:
+                n += 1
+                lit = {"dict": ast.Dict(keys=[], values=[]), "list": ast.List(elts=[], ctx=ast.Load()), "tuple": ast.Tuple(elts=[], ctx=ast.Load())}[node.func.id]
+                return ast.copy_location(lit, node)
+            # sorted(m.keys()) / list(m.keys()) / len(m.keys()) ... -> sorted(m) ...: iterating a mapping gives its keys
+            if isinstance(node.func, ast.Name) and node.func.id in ("sorted", "list", "tuple", "set", "frozenset", "len", "iter", "enumerate") and node.args and isinstance(node.args[0], ast.Call) and isinstance(node.args[0].func, ast.Attribute) and node.args[0].func.attr == "keys" and not node.args[0].args and not node.args[0].keywords:
+                node.args[0] = node.args[0].func.value
+                n += 1
             # numpy.real(e) / real(e) -> e.real (same for imag): one spelling of the view
             fname = node.func.id if isinstance(node.func, ast.Name) else (node.func.attr if isinstance(node.func, ast.Attribute) and isinstance(node.func.value, ast.Name) and node.func.value.id in ("numpy", "np") else None)
             if fname in ("real", "imag") and len(node.args) == 1 and not node.keywords and not isinstance(node.args[0], ast.Starred):
@@ -660,6 +669,10 @@ def canonicalise_idioms(tree: ast.AST) -> int:
         def visit_Compare(self, node):  # noqa: N802
             self.generic_visit(node)
             nonlocal n
+            # `flag is True` / `flag == True` -> `flag` (boolean flags; the canonical tree is only analysed)
+            if len(node.ops) == 1 and isinstance(node.ops[0], (ast.Is, ast.Eq)) and isinstance(node.comparators[0], ast.Constant) and node.comparators[0].value is True:
+                n += 1
+                return node.left
             if len(node.ops) == 1 and isinstance(node.left, ast.Call) and getattr(node.left.func, "id", None) == "len" and isinstance(node.comparators[0], ast.Constant) and isinstance(node.comparators[0].value, int):
                 c = node.comparators[0].value
                 op = type(node.ops[0])
@@ -740,3 +753,322 @@ def canonicalise_idioms(tree: ast.AST) -> int:
                 n += 1
     ast.fix_missing_locations(tree)
     return n
+
+
+# --------------------------------------------------------------------------------------------------------------
+# Helpers extracted from a reference function ("extract method"): inlined back at their call sites
+#
+# A method / module-level function that the reference tree does not have, defined next to a function that calls it, is
+# substituted for its calls (parameters bound to the arguments, its locals renamed apart) when that is a plain textual
+# unfolding: the call is a whole statement, the whole right-hand side of an assignment or the whole returned value, and
+# the helper returns only at its end (bare early returns under a top-level `if` become if/else); a helper that is a
+# single `return <expr>` is substituted anywhere.  A helper that is no longer referenced afterwards is dropped.
+# Nothing happens on the reference tree (no new name), and the result is only analysed, never run.
+
+
+def _helper_body(h: ast.AST):
+    """(statements without docstring, final return expression or None, ok)"""
+    body = [b for b in h.body if not (isinstance(b, ast.Expr) and isinstance(b.value, ast.Constant) and isinstance(b.value.value, str))]
+    for n in _own_nodes(h):
+        if isinstance(n, (ast.Yield, ast.YieldFrom, ast.Await, ast.Global, ast.Nonlocal)):
+            return None, None, False
+    if any(isinstance(n, (*FUNC_TYPES, ast.ClassDef)) for b in body for n in ast.walk(b)):
+        return None, None, False
+    if isinstance(h, ast.AsyncFunctionDef):
+        return None, None, False
+    return body, None, True
+
+
+def _split_returns(stmts: list[ast.stmt]):
+    """Rewrite `if c: A; return` followed by R into `if c: A else: R` (bare returns only).  Returns (stmts, final value
+    expression or None, ok): ok is False when a return remains elsewhere than at the very end."""
+    import copy
+
+    stmts = [copy.deepcopy(s) for s in stmts]
+
+    def rewrite(block):
+        out = []
+        for k, s in enumerate(block):
+            if isinstance(s, ast.If) and not s.orelse and s.body and isinstance(s.body[-1], ast.Return) and s.body[-1].value is None and not any(isinstance(n, ast.Return) for b in s.body[:-1] for n in ast.walk(b)):
+                rest = rewrite(block[k + 1 :])
+                s.body = s.body[:-1] or [ast.copy_location(ast.Pass(), s)]
+                s.orelse = rest
+                out.append(s)
+                return out
+            out.append(s)
+        return out
+
+    stmts = rewrite(stmts)
+    final = None
+    if stmts and isinstance(stmts[-1], ast.Return):
+        final = stmts[-1].value
+        stmts = stmts[:-1]
+        if final is None:
+            final = False  # bare return at the end: no value
+    if any(isinstance(n, ast.Return) for s in stmts for n in ast.walk(s)):
+        return None, None, False
+    return stmts, final, True
+
+
+_INLINE_COUNTER = [0]
+
+
+def _bind_call(h: ast.AST, call: ast.Call, is_method: bool):
+    """param -> argument expression, or None."""
+    a = h.args
+    if a.vararg or a.kwarg or a.posonlyargs or any(isinstance(x, ast.Starred) for x in call.args) or any(k.arg is None for k in call.keywords):
+        return None
+    params = [p.arg for p in a.args]
+    static = any(getattr(d, "id", getattr(d, "attr", None)) == "staticmethod" for d in h.decorator_list)
+    if any(getattr(d, "id", getattr(d, "attr", None)) not in ("staticmethod",) for d in h.decorator_list):
+        return None
+    bind = {}
+    if is_method and not static:
+        if not params:
+            return None
+        bind[params[0]] = ast.Name(id="self", ctx=ast.Load())
+        params = params[1:]
+    if len(call.args) > len(params):
+        return None
+    for p, v in zip(params, call.args):
+        bind[p] = v
+    kwonly = [p.arg for p in a.kwonlyargs]
+    for k in call.keywords:
+        if k.arg not in params and k.arg not in kwonly or k.arg in bind:
+            return None
+        bind[k.arg] = k.value
+    defaults = dict(zip(params[len(params) - len(a.defaults) :], a.defaults))
+    defaults.update({p: d for p, d in zip(kwonly, a.kw_defaults) if d is not None})
+    for p in [*params, *kwonly]:
+        if p not in bind:
+            if p not in defaults:
+                return None
+            bind[p] = defaults[p]
+    return bind
+
+
+def _instantiate(h: ast.AST, call: ast.Call, is_method: bool, caller_names: set[str], keep_returns: bool = False):
+    """(prelude assignments, body statements, value expression | None | False) of the helper applied to the call.
+
+    ``keep_returns``: the call is the whole value of a ``return``: the helper's body, returns included, takes its place.
+    """
+    import copy
+
+    body, _, ok = _helper_body(h)
+    if not ok:
+        return None
+    if keep_returns:
+        stmts, final = [copy.deepcopy(b) for b in body], False
+        # falling off the end of the helper returns None
+        if not (stmts and isinstance(stmts[-1], (ast.Return, ast.Raise))):
+            stmts.append(ast.Return(value=ast.Constant(value=None)))
+    else:
+        stmts, final, ok = _split_returns(body)
+        if not ok:
+            return None
+    bind = _bind_call(h, call, is_method)
+    if bind is None:
+        return None
+    _INLINE_COUNTER[0] += 1
+    tag = f"_{h.name.strip('_')}{_INLINE_COUNTER[0]}_"
+    stored = set()
+    for s in stmts:
+        for n in ast.walk(s):
+            if isinstance(n, ast.Name) and isinstance(n.ctx, (ast.Store, ast.Del)):
+                stored.add(n.id)
+            elif isinstance(n, ast.ExceptHandler) and n.name:
+                stored.add(n.name)
+    prelude = []
+    subst: dict[str, ast.AST] = {}
+    for p, v in bind.items():
+        simple = isinstance(v, (ast.Name, ast.Constant)) or (isinstance(v, ast.Attribute) and _is_pure(v))
+        if simple and p not in stored:
+            subst[p] = v
+        else:
+            new = tag + p
+            prelude.append(ast.Assign(targets=[ast.Name(id=new, ctx=ast.Store())], value=copy.deepcopy(v)))
+            subst[p] = ast.Name(id=new, ctx=ast.Load())
+            if p in stored:
+                stored.discard(p)
+                subst[p] = ast.Name(id=new, ctx=ast.Load())
+    rename = {n: (tag + n if n in caller_names else n) for n in stored}
+
+    class R(ast.NodeTransformer):
+        def visit_Name(self, n):  # noqa: N802
+            if n.id in subst:
+                if isinstance(n.ctx, ast.Load):
+                    return copy.deepcopy(subst[n.id])
+                tgt = subst[n.id]
+                return ast.Name(id=tgt.id, ctx=n.ctx) if isinstance(tgt, ast.Name) else n
+            if n.id in rename:
+                return ast.Name(id=rename[n.id], ctx=n.ctx)
+            return n
+
+        def visit_ExceptHandler(self, n):  # noqa: N802
+            if n.name in rename:
+                n.name = rename[n.name]
+            return self.generic_visit(n)
+
+    out = [R().visit(s) for s in stmts]
+    val = R().visit(copy.deepcopy(final)) if final not in (None, False) else final
+    return prelude, out, val
+
+
+def _helper_call(node: ast.AST, helpers: dict, is_method: bool):
+    if not isinstance(node, ast.Call):
+        return None
+    f = node.func
+    if is_method and isinstance(f, ast.Attribute) and isinstance(f.value, ast.Name) and f.value.id == "self" and f.attr in helpers:
+        return helpers[f.attr]
+    if not is_method and isinstance(f, ast.Name) and f.id in helpers:
+        return helpers[f.id]
+    return None
+
+
+def _inline_in(caller: ast.AST, helpers: dict, is_method: bool) -> int:
+    n_done = 0
+    for _ in range(8):
+        progressed = False
+        all_names = {n.id for n in ast.walk(caller) if isinstance(n, ast.Name)} | {a.arg for a in caller.args.args}
+        loop_spans = [(n.lineno, getattr(n, "end_lineno", n.lineno)) for n in ast.walk(caller) if isinstance(n, (ast.For, ast.While, ast.AsyncFor)) and hasattr(n, "lineno")]
+        for block in _blocks(caller):
+            for k, st in enumerate(block):
+                # the helper's locals are renamed apart only from the caller's names that are still read afterwards
+                # (a name of the caller that is dead at the call may be reused, as the un-extracted code would)
+                line = getattr(st, "end_lineno", getattr(st, "lineno", 0)) or 0
+                if any(a <= getattr(st, "lineno", 0) <= b for a, b in loop_spans):
+                    caller_names = all_names
+                else:
+                    caller_names = {n.id for n in ast.walk(caller) if isinstance(n, ast.Name) and isinstance(n.ctx, ast.Load) and getattr(n, "lineno", 0) > line}
+                call = None
+                kind = None
+                if isinstance(st, ast.Expr) and _helper_call(st.value, helpers, is_method):
+                    call, kind = st.value, "expr"
+                elif isinstance(st, (ast.Assign, ast.AnnAssign, ast.AugAssign)) and st.value is not None and _helper_call(st.value, helpers, is_method):
+                    call, kind = st.value, "value"
+                elif isinstance(st, ast.Return) and st.value is not None and _helper_call(st.value, helpers, is_method):
+                    call, kind = st.value, "value"
+                elif isinstance(st, ast.If) and _helper_call(st.test, helpers, is_method):
+                    call, kind = st.test, "test"
+                elif isinstance(st, ast.If) and isinstance(st.test, ast.UnaryOp) and isinstance(st.test.op, ast.Not) and _helper_call(st.test.operand, helpers, is_method):
+                    call, kind = st.test.operand, "nottest"
+                if call is None:
+                    # a helper that is a single `return <expr>`: substituted anywhere in a simple statement
+                    if isinstance(st, (ast.Assign, ast.AnnAssign, ast.AugAssign, ast.Expr, ast.Return, ast.If, ast.While, ast.Assert, ast.Raise)):
+                        hosts = [st.test] if isinstance(st, (ast.If, ast.While)) else [st]
+                        for host in hosts:
+                            for sub in ast.walk(host):
+                                h = _helper_call(sub, helpers, is_method)
+                                if h is None or h is caller:
+                                    continue
+                                inst = _instantiate(h, sub, is_method, caller_names)
+                                if inst is None or inst[0] or inst[1] or inst[2] in (None, False):
+                                    continue
+                                val = inst[2]
+
+                                class S(ast.NodeTransformer):
+                                    def visit_Call(self, n, _t=sub, _v=val):  # noqa: N802
+                                        if n is _t:
+                                            return _v
+                                        return self.generic_visit(n)
+
+                                if isinstance(st, (ast.If, ast.While)):
+                                    st.test = S().visit(st.test)
+                                else:
+                                    block[k] = S().visit(st)
+                                progressed = True
+                                n_done += 1
+                                break
+                            if progressed:
+                                break
+                    if progressed:
+                        break
+                    continue
+                h = _helper_call(call, helpers, is_method)
+                if h is caller:
+                    continue
+                inst = _instantiate(h, call, is_method, caller_names)
+                if inst is None and isinstance(st, ast.Return):
+                    inst = _instantiate(h, call, is_method, caller_names, keep_returns=True)
+                    if inst is not None:
+                        new = [*inst[0], *inst[1]]
+                        for s_ in new:
+                            for n_ in ast.walk(s_):
+                                if not hasattr(n_, "lineno"):
+                                    ast.copy_location(n_, st)
+                        block[k : k + 1] = new
+                        progressed = True
+                        n_done += 1
+                        break
+                if inst is None:
+                    continue
+                prelude, body, val = inst
+                if kind != "expr" and val in (None, False):
+                    continue
+                new = [*prelude, *body]
+                if kind == "expr":
+                    if val not in (None, False) and not _is_pure(val):
+                        new.append(ast.Expr(value=val))
+                elif kind == "value":
+                    st.value = val
+                    new.append(st)
+                elif kind == "test":
+                    st.test = val
+                    new.append(st)
+                else:
+                    st.test.operand = val
+                    new.append(st)
+                for s_ in new:
+                    ast.copy_location(s_, st)
+                    for n_ in ast.walk(s_):
+                        if not hasattr(n_, "lineno"):
+                            ast.copy_location(n_, st)
+                block[k : k + 1] = new or [ast.copy_location(ast.Pass(), st)]
+                progressed = True
+                n_done += 1
+                break
+            if progressed:
+                break
+        if not progressed:
+            break
+    if n_done:
+        ast.fix_missing_locations(caller)
+    return n_done
+
+
+def inline_new_helpers(tree: ast.Module, rel: str, ref: dict) -> list[str]:
+    """Inline the helpers the reference tree does not know (see above).  Returns what was done."""
+    done = []
+
+    def scope(node, prefix, is_class):
+        defs = {ch.name: ch for ch in node.body if isinstance(ch, FUNC_TYPES)}
+        counts = {}
+        for ch in node.body:
+            if isinstance(ch, FUNC_TYPES):
+                counts[ch.name] = counts.get(ch.name, 0) + 1
+        new = {n: d for n, d in defs.items() if f"{rel}::{prefix}{n}" not in ref and counts[n] == 1 and not (n.startswith("__") and n.endswith("__"))}
+        if new:
+            for name, d in defs.items():
+                helpers = {n: h for n, h in new.items() if n != name}
+                if is_class:
+                    helpers_m = dict(helpers)
+                    helpers_m.update({f"_{node.name.lstrip('_')}{n}": h for n, h in helpers.items() if n.startswith("__")})
+                    k = _inline_in(d, helpers_m, True)
+                else:
+                    k = _inline_in(d, helpers, False)
+                if k:
+                    done.append(f"{rel}::{prefix}{name}: {k} call(s) of new helper(s) inlined")
+            # drop the helpers that nothing references any more (they were only called from the functions above)
+            if any(d_.startswith(f"{rel}::{prefix}") for d_ in done):
+                for n, h in new.items():
+                    mangled = f"_{node.name.lstrip('_')}{n}" if is_class and n.startswith("__") else n
+                    others = [x for x in ast.walk(tree) if not any(x is y for y in ast.walk(h)) and ((isinstance(x, ast.Attribute) and x.attr in (n, mangled)) or (isinstance(x, ast.Name) and x.id == n) or (isinstance(x, ast.Constant) and x.value in (n, mangled)))]
+                    if not others and h in node.body:
+                        node.body.remove(h)
+                        done.append(f"{rel}::{prefix}{n}: helper dropped (no reference left)")
+        for ch in node.body:
+            if isinstance(ch, ast.ClassDef):
+                scope(ch, f"{prefix}{ch.name}.", True)
+
+    scope(tree, "", False)
+    return done
